@@ -87,3 +87,18 @@ Theorem C14_finisher_accepts_unconditional : forall ctr prefix d body c ctr',
          exists a recs, process_results p lay nts = OK a /\ output_records p a = OK recs /\ exists f, apply_comp (table_of recs) c = OK f).
 Proof. exact compiled_component_end_to_end_names. Qed.
 Print Assumptions C14_finisher_accepts_unconditional.
+
+(* whole nested systems, finisher: for every designed string that fits the arrays of a compiled system - zero-length members
+   anywhere - finishing the whole system object against the records the designer writes succeeds (distinct record names) *)
+Theorem C14_system_finisher_accepts : forall fs includes ctr basename args lines ctr',
+  compile_top fs includes ctr basename args [] = OK (lines, ctr') ->
+  (forall o, load_file fs includes 12 ctr basename args "" "." = OK (o, ctr') -> names_ok 12 o) ->
+  (forall n k len, In (PSeq n k len) lines -> valid_template k = true) ->
+  exists o p lay g, load_file fs includes 12 ctr basename args "" "." = OK (o, ctr') /\ load_spec lines pspec0 = OK p /\ seed p false = OK (lay, g) /\
+    (get_constraints p false = DOver \/
+     exists e w s, get_constraints p false = DOk e w s /\
+       forall nts, fits nts e w ->
+         exists a recs, process_results p lay nts = OK a /\ output_records p a = OK recs /\
+           (NoDup (map fst recs) -> exists f, apply_obj 12 (table_of recs) o = OK f)).
+Proof. exact compiled_system_end_to_end. Qed.
+Print Assumptions C14_system_finisher_accepts.
